@@ -231,3 +231,78 @@ func VerifC11_SilenceDamaged() {
 		vfReach("torn")
 	}
 }
+
+// VerifC11_SilenceSecondSnapshot: one process, two snapshots. After a first completed
+// maintenance snapshot the stored silences are only changed in place (one is expired,
+// or its end is moved) and optionally a new one is added; the second (shutdown)
+// snapshot runs to completion or is killed at any file-system operation. The next start
+// loads exactly the state of the first or of the second snapshot, and after a clean
+// shutdown it is the second one: an in-place change is not forgotten because "nothing
+// new was added".
+//
+//vf:bounds unwind=24 decisions=400 preempt=0 goroutines=4
+//vf:nonative uses the engine's crash-consistent file-system model
+//vf:expect reach=clean-shutdown reach=crashed
+func VerifC11_SilenceSecondSnapshot() {
+	ctx := context.Background()
+	now := vfNow()
+	s, err := hNew11("data/silences")
+	vfAssert("start-empty", err == nil)
+	a := hSil11("a", now)
+	vfAssert("set-ok", s.Set(ctx, a) == nil)
+	// the maintenance loop of the running process: a periodic snapshot every 10 minutes
+	// and a last one at shutdown
+	stopc := make(chan struct{})
+	done := make(chan struct{})
+	vfGo("maintenance", func() {
+		defer func() { recover(); close(done) }()
+		s.Maintenance(10*time.Minute, "data/silences", stopc, nil)
+	})
+	vfAdvance(10*time.Minute + time.Second) // first snapshot, complete
+	vfFSSettle()                            // ... and on the disk by now
+	endBefore := s.st[a.Id].Silence.EndsAt.AsTime()
+	switch vfChoice("inPlaceChange", 2) {
+	case 0:
+		vfAssert("expire-ok", s.Expire(ctx, a.Id) == nil)
+	case 1:
+		e := &pb.Silence{Id: a.Id, MatcherSets: a.MatcherSets, StartsAt: a.StartsAt, EndsAt: timestamppb.New(now.Add(3 * time.Hour)), Comment: "longer"}
+		vfAssert("edit-ok", s.Set(ctx, e) == nil && e.Id == a.Id)
+	}
+	endAfter := s.st[a.Id].Silence.EndsAt.AsTime()
+	added := vfBool("alsoAddsOne")
+	if added {
+		vfAssert("set-ok", s.Set(ctx, hSil11("b", vfNow())) == nil)
+	}
+	k := vfChoice("crashBeforeOp", 8) // 7 = runs to completion
+	if k < 7 {
+		vfCrashAt(k)
+	}
+	close(stopc) // shutdown: the last snapshot
+	<-done
+	crashed := vfCrashed()
+	if !crashed && vfBool("powerLossAfterwards") {
+		vfPowerLoss()
+		crashed = true
+	}
+	vfCrashRecover()
+	s2, err := hNew11("data/silences")
+	vfAssert("restart-never-refused-by-own-file", err == nil)
+	got, ok := s2.st[a.Id]
+	vfAssert("silence-a-survives", ok)
+	if !ok {
+		return
+	}
+	isFirst := got.Silence.EndsAt.AsTime().Equal(endBefore) && len(s2.st) == 1
+	wantLen := 1
+	if added {
+		wantLen = 2
+	}
+	isSecond := got.Silence.EndsAt.AsTime().Equal(endAfter) && len(s2.st) == wantLen
+	vfAssert("exactly-the-first-or-the-second-snapshot", isFirst || isSecond)
+	if !crashed {
+		vfAssert("clean-shutdown-keeps-the-in-place-change", isSecond)
+		vfReach("clean-shutdown")
+	} else {
+		vfReach("crashed")
+	}
+}
